@@ -43,7 +43,8 @@ Definition opt_eqb (a b : option Z) : bool :=
 Definition ret_eqb (a b : ret) : bool :=
   match a, b with
   | RPushOk, RPushOk | RPushFull, RPushFull | RTryOk, RTryOk | RWouldBlock, RWouldBlock
-  | RClosed, RClosed | RSendOk, RSendOk | RManyOk, RManyOk | REos, REos | RPending, RPending => true
+  | RClosed, RClosed | RSendOk, RSendOk | RManyOk, RManyOk | REos, REos | RPending, RPending
+  | RCancelled, RCancelled => true
   | RPop x, RPop y => opt_eqb x y
   | RRecv x, RRecv y => x =? y
   | _, _ => false
